@@ -1441,3 +1441,67 @@ def check_state_shape(prog: Program, res: Result) -> None:
             res.bad("R-STATE-SHAPE", f"_update_state: {tgt} {op} {arg}",
                     fi0.loc(), f"_update_state performs `{tgt}` {op} `{arg}`: "
                     "the neighbours move in the wrong direction")
+
+
+# ---------------------------------------------------------------------------
+def check_symmetry_number(prog: Program, res: Result) -> None:
+    res.rule("R-SYMNUM", "topological_symmetry_number enumerates the graph "
+             "against ITSELF with stereo=True and returns the number of "
+             "mappings yielded (nothing filtered, nothing counted twice)")
+    fi = prog.fn("experimental:topological_symmetry_number")
+    g = fi.params()[0]
+    calls = [n for n in ast.walk(fi.node) if isinstance(n, ast.Call)
+             and call_name(n) == "vf2pp_all_isomorphisms"]
+    inst = "topological_symmetry_number: vf2pp(graph, graph, stereo=True)"
+    if len(calls) != 1:
+        res.unrecognised("R-SYMNUM", inst, fi.loc(), "search call")
+        return
+    c = calls[0]
+    kw = {k.arg: norm(k.value) for k in c.keywords}
+    args = [norm(a) for a in c.args[:2]]
+    if args == [g, g] and kw.get("stereo") == "True" and kw.get(
+            "subgraph", "False") == "False":
+        res.ok("R-SYMNUM", inst, fi.loc(c))
+    else:
+        res.bad("R-SYMNUM", f"topological_symmetry_number: {norm(c, 80)}",
+                fi.loc(c), f"{inst}: called as `{norm(c, 100)}`: not the "
+                "stereo-preserving automorphisms of the graph", instance=inst)
+    # the count
+    from .core import DefUse
+    du = DefUse(fi.node)
+    rets = [r for r in ast.walk(fi.node) if isinstance(r, ast.Return)]
+    inst = "topological_symmetry_number: returns the number of mappings"
+    ok = None
+    for r in rets:
+        t = norm(r.value, 200)
+        src = " ".join(norm(d, 200) for d in du.dep_nodes(r.value))
+        if "vf2pp_all_isomorphisms" not in src:
+            ok = False
+            continue
+        if t in ("deque(enumerate(mappings, 1), maxlen=1)[0][0]",
+                 "len(list(mappings))", "sum((1 for _ in mappings))",
+                 "len(tuple(mappings))"):
+            ok = True if ok is None else ok
+        elif re.search(r"enumerate\(mappings(, 0)?\)", t) or "- 1" in t or \
+                "+ 1" in t or "// 2" in t or "set(" in t:
+            ok = False
+        else:
+            ok = None
+            break
+    if ok is True:
+        res.ok("R-SYMNUM", inst, fi.loc())
+    elif ok is False:
+        res.bad("R-SYMNUM", f"topological_symmetry_number: {[norm(r.value, 60) for r in rets]}",
+                fi.loc(), f"{inst}: returns "
+                f"{[norm(r.value, 80) for r in rets]}", instance=inst)
+    else:
+        res.unrecognised("R-SYMNUM", inst, fi.loc(), "counting idiom")
+    # unspecified parities are refused (the count would not be defined)
+    guards = [n for n in ast.walk(fi.node) if isinstance(n, ast.If)
+              and "parity is None" in norm(n.test)
+              and any(isinstance(b, ast.Raise) for b in n.body)]
+    inst = "topological_symmetry_number: refuses unspecified parities"
+    if guards:
+        res.ok("R-SYMNUM", inst, fi.loc(guards[0]))
+    else:
+        res.unrecognised("R-SYMNUM", inst, fi.loc(), "guard on parity None")
